@@ -346,11 +346,13 @@ func (c *client) setupRequestChan() chan clientRequest {
 	requests := make(chan clientRequest)
 
 	c.doRequest = func(ctx context.Context, cr clientRequest) (clientResponse, error) {
+		vhook(nil, "cl.enqueue.before", cr.req.ID)
 		select {
 		case requests <- cr:
 		case <-c.exiting:
 			return clientResponse{}, fmt.Errorf("websocket routine exiting")
 		}
+		vhook(nil, "cl.enqueue.after", cr.req.ID)
 
 		var ctxDone <-chan struct{}
 		var resp clientResponse
@@ -367,6 +369,7 @@ func (c *client) setupRequestChan() chan clientRequest {
 				break loop
 			case <-ctxDone: // send cancel request
 				ctxDone = nil
+				vhook(nil, "cl.cancel.before", cr.req.ID)
 
 				rp, err := json.Marshal([]param{{v: reflect.ValueOf(cr.req.ID)}})
 				if err != nil {
@@ -508,6 +511,7 @@ func (c *client) makeOutChan(ctx context.Context, ftyp reflect.Type, valOut int)
 				return
 			}
 
+			vhook(nil, "cl.sink.deliver", nil)
 			select {
 			case incoming <- val:
 			case <-ctx.Done():
